@@ -129,7 +129,7 @@ def build(rnd, rnd2=None):
         if rnd.random() < .35:
             size = rnd.choice([s for s in (4, 8, 16, 32) if s >= ratio and s <= (1 << (aw + gb - 1))])
             s = WishboneSRAM(size=size, data_width=wdw, granularity=cdw, writable=rnd.random() < .8,
-                             init=[rnd.getrandbits(wdw) for _ in range(size * cdw // wdw)])
+                             init=[lib.bits(rnd, wdw) for _ in range(size * cdw // wdw)])
             sub = s.wb_bus
             m.submodules[f"sram{i}"] = s
             srams.append(s)
@@ -256,7 +256,7 @@ def run_impl(case):
         for i in regs:
             el = i.resource.element
             n = i.end - i.start
-            val = rnd.getrandbits(el.width) if el.width else 0
+            val = lib.bits(rnd, el.width) if el.width else 0
             if el.access.readable() and isinstance(i.resource, El):
                 ctx.set(el.r_data, val)
             got, strobes = [], []
@@ -278,7 +278,7 @@ def run_impl(case):
                 fails.append(("C01", f"reading write-only {i.path} returned non-zero data {got}", i.start))
             # write transaction
             before = mem_snapshot()
-            vals = [rnd.getrandbits(cdw) for _ in range(n)]
+            vals = [lib.bits(rnd, cdw) for _ in range(n)]
             strobes = []
             for k in range(n):
                 acked, v, seen = await transfer(i.start + k, 1, vals[k])
@@ -309,7 +309,7 @@ def run_impl(case):
         for i in [r for r in regs if r.resource.element.access.writable()][:6]:
             el = i.resource.element
             n = i.end - i.start
-            vals = [rnd2.getrandbits(cdw) for _ in range(n)]
+            vals = [lib.bits(rnd2, cdw) for _ in range(n)]
             events = []
             ctx.set(bus.we, 1); ctx.set(bus.cyc, 1); ctx.set(bus.stb, 1)
             ok = True
@@ -371,7 +371,7 @@ def run_impl(case):
             if o is not None and hasattr(o.resource, "element"):
                 continue
             before = mem_snapshot()
-            v = rnd.getrandbits(cdw) | 1
+            v = lib.bits(rnd, cdw) | 1
             acked_w, _, seen_w = await transfer(a, 1, v)
             after = mem_snapshot()
             acked_r, got, seen_r = await transfer(a, 0, 0)
